@@ -33,7 +33,7 @@ fn info(tier: Tier) -> CheckInfo {
         id: "C02",
         level: "model_checking",
         rule: format!(
-            "Tier {}: one real reader and {} scripted endpoints; for each lookup API (get_immutable, get_mutable without and with salt, get_mutable_most_recent, get_signed_peers) every assignment of an answer from the forgery menu to every endpoint, in every arrival order, with and without a second identical call joining the lookup 100 ms later while a slow endpoint keeps it open (and, for salted mutable items, a get issued while the node's own put_mutable lookup for that key is in flight). Menus - immutable: no value, right value, other bytes, one-bit flip, value of another target, empty, a mutable reply, a peers reply; mutable: no value, right item, valid item of another key, right key but other salt, seq / value / signature altered after signing, k not a curve point, the item of the unsalted slot, an immutable reply; signed peers: [valid], [valid,forged], [forged,valid], valid for another infohash, key/signature mismatch, altered timestamp, empty list, a peers reply. Oracle: every element surfaced by the API is re-verified independently (SHA-1 of the BEP44 encoding; Ed25519 over the BEP44 signable with the requested salt, key = requested key; Ed25519 over infohash||t).",
+            "Tier {}: one real reader and {} scripted endpoints; for each lookup API (get_immutable, get_mutable without and with salt, get_mutable_most_recent, get_signed_peers) every assignment of an answer from the forgery menu to every endpoint, in every arrival order, with and without a second identical call joining the lookup 100 ms later while a slow endpoint keeps it open (and, for salted mutable items - the salt is the longest legal one, 64 bytes - a get issued while the node's own put_mutable lookup for that key is in flight, and a second caller asking for the same key under a salt one byte longer, judged against its own salt). Menus - immutable: no value, right value, other bytes, one-bit flip, value of another target, empty, a mutable reply, a peers reply; mutable: no value, right item, valid item of another key, right key but other salt, seq / value / signature altered after signing, k not a curve point, the item of the unsalted slot, an immutable reply; signed peers: [valid], [valid,forged], [forged,valid], valid for another infohash, key/signature mismatch, altered timestamp, empty list, a peers reply. Oracle: every element surfaced by the API is re-verified independently (SHA-1 of the BEP44 encoding; Ed25519 over the BEP44 signable with the requested salt, key = requested key; Ed25519 over infohash||t).",
             tier.name(),
             3
         ),
@@ -58,7 +58,11 @@ fn keys() -> Keys {
 }
 
 const IMM: &[u8] = b"the authentic immutable value";
-const SALT: &[u8] = b"salty";
+/// The longest salt BEP44 allows (64 bytes).
+const SALT: &[u8] = b"salty-salty-salty-salty-salty-salty-salty-salty-salty-salty-64b!!";
+/// One byte longer: shares its first 64 bytes with `SALT` (too long to publish under, but a
+/// reader may ask for it).
+const SALT65: &[u8] = b"salty-salty-salty-salty-salty-salty-salty-salty-salty-salty-64b!!x";
 const INFOHASH: Id20 = [0x5A; 20];
 
 fn target_of(api: usize) -> Id20 {
@@ -193,7 +197,8 @@ struct Cfg {
     answers: Vec<usize>,
     order: usize,
     /// 0 none, 1 second identical call 100 ms later, 2 (salted mutable only) the get is issued
-    /// while the node's own put_mutable for the key is looking up
+    /// while the node's own put_mutable for the key is looking up, 3 (salted mutable only) a
+    /// second caller asks 100 ms later for the same key under a salt one byte longer
     join: usize,
 }
 
@@ -206,12 +211,11 @@ struct Out {
     done: bool,
 }
 
-fn verify_result(api: usize, r: &CallResult, target: &Id20) -> (Vec<(String, String)>, usize) {
+fn verify_result(_api: usize, r: &CallResult, target: &Id20, salt: Option<&[u8]>) -> (Vec<(String, String)>, usize) {
     let k = keys();
     let mut bad = vec![];
     let mut n = 0;
     let check_item = |item: &MutableItem, bad: &mut Vec<(String, String)>| {
-        let salt = salt_of(api);
         let ok = item.key() == &k.pk
             && item.salt() == salt
             && krpc::verify_mutable(item.key(), item.seq(), item.value(), salt, item.signature())
@@ -295,7 +299,7 @@ fn scenario(cfg: &Cfg, track: bool) -> Out {
     }
     calls.push(start_call(&mut w));
     let join_at = w.now + 100 * MS;
-    let mut joined = cfg.join != 1;
+    let mut joined = cfg.join != 1 && cfg.join != 3;
     let lookup_q: &str = match cfg.api {
         4 => "get_signed_peers",
         _ => "get",
@@ -303,7 +307,11 @@ fn scenario(cfg: &Cfg, track: bool) -> Out {
     let h = w.now + 30 * SEC;
     loop {
         if !joined && w.now >= join_at {
-            calls.push(start_call(&mut w));
+            if cfg.join == 3 {
+                calls.push(w.call_get_mutable(a, k.pk, Some(SALT65.to_vec()), None));
+            } else {
+                calls.push(start_call(&mut w));
+            }
             joined = true;
         }
         let next_h = if joined { h } else { join_at };
@@ -341,9 +349,12 @@ fn scenario(cfg: &Cfg, track: bool) -> Out {
     let mut bad = vec![];
     let mut yielded = 0;
     let done = calls.iter().all(|c| w.result(*c).is_some());
-    for c in &calls {
+    for (ci, c) in calls.iter().enumerate() {
         if let Some(r) = w.result(*c) {
-            let (b, n) = verify_result(cfg.api, r, &target);
+            // the second caller of join mode 3 asked for another salt: judged against that one
+            let other_salt = cfg.join == 3 && ci == 1;
+            let (salt, tgt) = if other_salt { (Some(SALT65), krpc::mutable_target(&k.pk, Some(SALT65))) } else { (salt_of(cfg.api), target) };
+            let (b, n) = verify_result(cfg.api, r, &tgt, salt);
             bad.extend(b);
             yielded += n;
         }
@@ -369,8 +380,8 @@ fn configs(tier: Tier) -> Vec<Cfg> {
         for c in 0..ml.pow(n as u32) {
             let answers: Vec<usize> = (0..n).map(|i| (c / ml.pow(i as u32)) % ml).collect();
             for order in 0..orders {
-                for join in 0..3 {
-                    if join == 2 && api != 2 {
+                for join in 0..4 {
+                    if join >= 2 && api != 2 {
                         continue;
                     }
                     if join >= 1 && tier.is_quick() && order % 2 == 1 {
